@@ -45,6 +45,13 @@ def boundary_values(m, rnd, extra=()):
     for _ in range(24):
         vs.add(rnd.randint(lo, hi))
         vs.add(rnd.randint(max(lo, m.min - 300), min(hi, m.max + 300)))
+    # aliases of discriminants under truncation to a narrower width (a bound test or cast done in the wrong type)
+    picks = [m.min, m.max, 0, -1] + [m.sorted_values[rnd.randrange(m.n)] for _ in range(6)]
+    for v in picks:
+        for w in (8, 16, 32, 64):
+            for k in (1, -1, 2, -2):
+                vs.add(v + k * (1 << w))
+            vs.add(v ^ (1 << (w - 1)))
     vs.update(extra)
     return sorted(v for v in vs if lo <= v <= hi)
 
@@ -255,7 +262,9 @@ def rand_history(rnd, n, max_len=None):
             ops.append("l")
         else:
             ops.append("h")
-    f = rnd.choice(M.FINISHERS + [None])
+    f = rnd.choice(M.FINISHERS + M.PARAM_FINISHERS + [None])
+    if f in M.PARAM_FINISHERS:
+        f = "%s:%d" % (f, rnd.choice(args))
     if f:
         ops.append(f)
     return ops
